@@ -406,7 +406,7 @@ pub fn gen_c13(r: &mut Rng, profile: &str) -> MScn {
         s.events.sort_by_key(|e| e.0);
     }
     if r.chance(1, 4) {
-        s.devs.push(DevSpec::Script(ScriptSpec { ports: vec![], vect: 0x91, prio: 0, raises: vec![], externals: vec![], read_refuse: vec![], write_refuse: vec![], read_base: 0, mcr_clear: sorted((0..1 + r.below(2)).map(|_| r.below(200) as u32).collect()) }));
+        s.devs.push(DevSpec::Script(ScriptSpec { ports: vec![], vect: 0x91, prio: 0, raises: vec![], externals: vec![], read_refuse: vec![], write_refuse: vec![], read_base: 0, mcr_clear: sorted((0..1 + r.below(2)).map(|_| r.below(200) as u32).collect()), wrap: 0 }));
     }
     // the public instruction counter may have any value when a call starts
     if r.chance(1, 8) {
